@@ -44,6 +44,14 @@ for nm in ["Foo.Bar", "a__b", "a-_.b", "A", "x.-y--z", ""]:
 for l in [[1, 2, 2, 3, 1], [], ["a", "b", "a"], [3]]:
     CASES.append((U + "OrderedSet.__init__@data", [l]))
 
+# specifier algebra on concrete operands: texts over the versions 1 .. 6 (executor: versions as numbers, T-SPEC; CPython: packaging versions)
+SPEC_TEXTS = ["", "<empty>", ">=2", "<4", ">2,<=5", ">=3,<3.5", "==3", "!=3", "<2||>=4", "<=1||>2,<3||>=5", "!=2,!=4", ">=1,<6"]
+for i, a in enumerate(SPEC_TEXTS):
+    CASES.append(("@spec", ["invert", a, ""]))
+    for b in SPEC_TEXTS[i % 3::3]:
+        CASES.append(("@spec", ["and", a, b]))
+        CASES.append(("@spec", ["or", a, b]))
+
 
 REAL_SCRIPT = r'''
 import json, sys, dataclasses, enum
@@ -67,7 +75,25 @@ def arg(a, mod):
         return mod.Platform.parse(a[1])
     return a
 out = []
+def spec_norm(x):
+    from dep_logic.specifiers import RangeSpecifier, UnionSpecifier
+    def r(g):
+        return [None if g.min is None else float(str(g.min)), bool(g.include_min), None if g.max is None else float(str(g.max)), bool(g.include_max)]
+    if isinstance(x, RangeSpecifier):
+        return {"@spec": "RangeSpecifier", "ranges": [r(x)]}
+    if isinstance(x, UnionSpecifier):
+        return {"@spec": "UnionSpecifier", "ranges": [r(g) for g in x.ranges]}
+    return {"@spec": type(x).__name__, "ranges": []}
 for q, args in cases:
+    if q == "@spec":
+        from dep_logic.specifiers import parse_version_specifier as P_
+        op, a, b = args
+        try:
+            x = P_(a)
+            out.append({"ok": spec_norm(~x if op == "invert" else (x & P_(b)) if op == "and" else (x | P_(b)))})
+        except Exception as e:
+            out.append({"raises": type(e).__name__})
+        continue
     modname, _, rest = q.partition(":")
     rest, _, variant = rest.partition("@")
     mod = importlib.import_module(modname)
@@ -113,7 +139,97 @@ def norm_sym(v):
     return {"@repr": repr(v)[:80]}
 
 
+def spec_obj(th, ix, text):
+    """a concrete specifier object of the executor for a text over the numbers 1 .. 6 (built directly, not through the parser)"""
+    import z3
+    from pyvc.values import Obj, Opt
+    if text == "<empty>":
+        return Obj(ix.cls("EmptySpecifier"), {})
+    none_s = Opt(z3.BoolVal(False), z3.StringVal(""), "str")
+
+    def rng(lo, ilo, hi, ihi):
+        mk = lambda v: Opt(z3.BoolVal(v is not None), z3.RealVal(str(v if v is not None else 0)))
+        return Obj(ix.cls("RangeSpecifier"), {"min": mk(lo), "max": mk(hi), "include_min": ilo, "include_max": ihi, "simplified": none_s})
+
+    def clause_set(alt):
+        lo, ilo, hi, ihi, holes = None, False, None, False, []
+        for c in [c for c in alt.split(",") if c]:
+            for op in (">=", "<=", "==", "!=", ">", "<"):
+                if c.startswith(op):
+                    v = float(c[len(op):])
+                    break
+            if op in (">=", ">"):
+                if lo is None or v > lo or (v == lo and op == ">"):
+                    lo, ilo = v, op == ">="
+            elif op in ("<=", "<"):
+                if hi is None or v < hi or (v == hi and op == "<"):
+                    hi, ihi = v, op == "<="
+            elif op == "==":
+                lo, ilo, hi, ihi = v, True, v, True
+            else:
+                holes.append(v)
+        pieces, cur = [], (lo, ilo)
+        for h in sorted(holes):
+            pieces.append((cur[0], cur[1], h, False))
+            cur = (h, False)
+        pieces.append((cur[0], cur[1], hi, ihi))
+        return pieces
+    pieces = [p for alt in text.split("||") for p in clause_set(alt)]
+    if len(pieces) == 1:
+        return rng(*pieces[0])
+    return Obj(ix.cls("UnionSpecifier"), {"ranges": tuple(rng(*p) for p in pieces), "simplified": none_s})
+
+
+def spec_norm_sym(v):
+    import z3
+    from pyvc.values import Obj, SymObj
+
+    def num(o):
+        if o is None or not z3.is_true(z3.simplify(o.has)):
+            return None
+        x = z3.simplify(o.val)
+        return float(x.numerator_as_long()) / float(x.denominator_as_long())
+
+    def r(g):
+        f = g.fields
+        b = lambda x: bool(z3.is_true(z3.simplify(x))) if z3.is_expr(x) else bool(x)
+        return [num(f["min"]), b(f["include_min"]), num(f["max"]), b(f["include_max"])]
+    if isinstance(v, Obj) and v.cls.name == "RangeSpecifier":
+        return {"@spec": "RangeSpecifier", "ranges": [r(v)]}
+    if isinstance(v, Obj) and v.cls.name == "UnionSpecifier":
+        return {"@spec": "UnionSpecifier", "ranges": [r(g) for g in v.fields["ranges"]]}
+    if isinstance(v, Obj):
+        return {"@spec": v.cls.name, "ranges": []}
+    return {"@repr": repr(v)[:80]}
+
+
+def run_spec(args):
+    import ast
+    from pyvc import extract
+    from pyvc.engine import Exec
+    from pyvc.theories import spec as T
+    ix = run_sym.ix = getattr(run_sym, "ix", None) or extract.Index()
+    th = T.SpecTheory(ix)
+    ex = Exec(ix, th)
+    op, a, b = args
+
+    def thunk(e):
+        x = spec_obj(th, ix, a)
+        if op == "invert":
+            return e.unary(ast.Invert(), x) if hasattr(e, "unary") else e.call_function(ix.find_method(x.cls, "__invert__")[0], [x], inline=True)
+        return e.binop(ast.BitAnd() if op == "and" else ast.BitOr(), x, spec_obj(th, ix, b))
+    outcomes, _ = ex.explore(thunk, [])
+    if len(outcomes) != 1:
+        return {"paths": len(outcomes)}
+    oc = outcomes[0]
+    if oc.kind == "return":
+        return {"ok": spec_norm_sym(oc.value)}
+    return {"raises": getattr(oc.value, "cls_name", str(oc.value))}
+
+
 def run_sym(q, args):
+    if q == "@spec":
+        return run_spec(args)
     from pyvc import extract
     from pyvc.engine import Exec
     from pyvc.values import ClassRef, Obj, RaiseEx
